@@ -3,9 +3,11 @@
 Deliberately *not* the implementation's data structure: the model keeps
 
   * ``xs`` — the raw contents of the adaptive window, oldest first, as exact
-    rationals (``Fraction(x)`` of every fed value; stored as ``int`` when the
-    value is integral so that the sums stay cheap — the arithmetic is exact
-    either way), and
+    rationals: every fed value is ``Fraction(x)``; the list holds the integer
+    numerators over one common denominator ``den`` (floats are dyadic, so
+    ``den`` is a power of two; the list is rescaled when a finer value arrives).
+    All sums are therefore plain integer sums -- exact, and cheap even for
+    non-dyadic-looking data such as 0.1 --, and
   * ``bs`` — the chronological list of bucket sizes, oldest first (always
     non-increasing: the oldest buckets are the largest).
 
@@ -66,7 +68,8 @@ class ADWINModel:
         self.window_size_thresh = window_size_thresh
         self.subwindow_size_thresh = subwindow_size_thresh
         self.conservative_bound = conservative_bound
-        self.xs = []
+        self.xs = []  # integer numerators over the common denominator ``den``
+        self.den = 1
         self.bs = []
         self.total = 0
         self.since = 0
@@ -93,17 +96,28 @@ class ADWINModel:
     def width(self):
         return len(self.xs)
 
+    def _append(self, x):
+        f = Fraction(x)
+        if self.den % f.denominator:
+            new = self.den * f.denominator // math.gcd(self.den, f.denominator)
+            k = new // self.den
+            self.xs = [v * k for v in self.xs]
+            self.den = new
+        self.xs.append(f.numerator * (self.den // f.denominator))
+
     def mean_exact(self):
         w = len(self.xs)
-        return Fraction(sum(self.xs), w) if w else Fraction(0)
+        return Fraction(sum(self.xs), w * self.den) if w else Fraction(0)
 
     def var_exact(self):
         """Population variance of the raw window."""
         w = len(self.xs)
         if not w:
             return Fraction(0)
-        mu = Fraction(sum(self.xs), w)
-        return Fraction(sum(v * v for v in self.xs), w) - mu * mu
+        s1 = sum(self.xs)
+        s2 = sum(v * v for v in self.xs)
+        # s2/(w den^2) - (s1/(w den))^2
+        return Fraction(w * s2 - s1 * s1, w * w * self.den * self.den)
 
     # ---- exponential histogram ----------------------------------------------------------
     def _add_bucket(self):
@@ -150,7 +164,9 @@ class ADWINModel:
             n0 += sz
             n1 = w - n0
             if D.ge(n0, s, exact=True) and D.ge(n1, s, exact=True):
-                diff = float(abs(Fraction(t0, n0) - Fraction(tot - t0, n1)))
+                # |t0/n0 - (tot-t0)/n1| over the common denominator
+                # (int / int is correctly rounded, like float(Fraction))
+                diff = abs(t0 * n1 - (tot - t0) * n0) / (n0 * n1 * self.den)
                 eps = self._eps_cut(n0, n1, w, var)
                 self.diag["splits_tested"] = self.diag.get("splits_tested", 0) + 1
                 if eps == eps and max(diff, eps) > 0:
@@ -174,7 +190,7 @@ class ADWINModel:
             self.since = 0
         self.total += 1
         self.since += 1
-        self.xs.append(exact(x))
+        self._append(x)
         self._add_bucket()
 
         scheduled = self.total % self.new_sample_thresh == 0
@@ -209,5 +225,27 @@ class ADWINModel:
             "W_internal": w,
         }
 
+    # ---- explicit reset() between two updates ----------------------------------------------
+    def reset(self):
+        """``ADWIN.reset()`` called by the user: the drift state, the retraining recommendation and
+        the samples-since-reset counter are initialised; the adaptive window (hence mean, variance,
+        W, the bucket layout) and total_samples are untouched -- W shrinks only in an update that
+        reports drift."""
+        self.diag = {"dropped": [], "gap_cut": False}
+        self.state = None
+        self.recs = [None, None]
+        self.since = 0
+        w = len(self.xs)
+        return {
+            "state": None,
+            "recs": [None, None],
+            "total": self.total,
+            "since": 0,
+            "mean": float(self.mean_exact()),
+            "variance": float(self.var_exact()),
+            "W": w,
+            "W_internal": w,
+        }
+
     def canon(self):
-        return (tuple(self.xs), tuple(self.bs), self.total, self.since, self.state, tuple(self.recs))
+        return (tuple(self.xs), self.den, tuple(self.bs), self.total, self.since, self.state, tuple(self.recs))
